@@ -93,7 +93,7 @@ struct MirEmitter {
   std::vector<std::pair<std::string, std::vector<std::string>>> lrefs;  // table name -> labels
   std::set<std::string> called, icalled; std::set<std::pair<std::string, char>> protos; bool uses_ext = false, uses_mem = false, uses_extm = false, uses_blk = false; std::set<int> extn_sizes; std::set<std::string> data_used;
   const std::map<std::string, FuncInfo> *sigs = nullptr;
-  int loop_depth = 0;
+  int loop_depth = 0; bool use_inline = false;
 
   std::string newlab() { return S("lb_%s_%d", fname.c_str(), lab++); }  // label names are module-scoped in MIR text
   void label(const std::string &l) { pend.push_back(l); }
@@ -175,7 +175,13 @@ struct MirEmitter {
       uses_extm = true; std::string v = opnd(st[2]);
       insn("and t1, " + v + ", 4095"); insn("i2f ff0, t1"); insn("i2ld fl0, t1"); insn("i2d fd0, t1");
       insn("call p_extm, extm, " + opnd(st[1]) + ", " + v + ", ff0, fl0, " + v + ", fd0, " + v + ", fl0, " + v + ", ff0, " + v + ", " + v + ", " + v + ", " + v);
-    } else if (k == "ext") { uses_ext = true; insn("call p_ext, ext, " + opnd(st[1]) + ", " + opnd(st[2]) + ", " + opnd(st[3])); }
+    } else if (k == "ext") { uses_ext = true; insn(std::string(use_inline ? "inline" : "call") + " p_ext, ext, " + opnd(st[1]) + ", " + opnd(st[2]) + ", " + opnd(st[3])); }  // an inline insn of an external stays an inline insn
+    else if (k == "fcmp") {  // a function has one address: the value 'mov r, f' yields equals the entry of a ref data item
+      icalled.insert(st[2].s); std::string l1 = newlab(), l2 = newlab();
+      insn("mov t0, " + st[2].s); insn("mov t1, r_" + st[2].s); insn("mov t1, i64:(t1)");
+      insn("mov " + opnd(st[1]) + ", 1"); insn("beq " + l1 + ", t0, t1"); insn("mov " + opnd(st[1]) + ", 0"); label(l1);
+      insn("mov t1, " + st[2].s); insn("beq " + l2 + ", t0, t1"); insn("mov " + opnd(st[1]) + ", 2"); label(l2); insn("mov t2, t2");
+    }
     else if (k == "ldata") { data_used.insert(st[2].s); insn("mov t0, " + st[2].s); insn("mov " + opnd(st[1]) + ", i64:(t0)"); }  // first i64 of a data item (own or imported)
     else if (k == "extn") {  // external with many integer arguments (first = count): long argument lists of the FFI / stack-passing paths
       int n = (int) st[2].num(); extn_sizes.insert(n);
@@ -240,7 +246,7 @@ struct MirEmitter {
   }
   // whole module; `all` maps every function name of the *program* to its signature
   std::string module(const Json &m, const std::map<std::string, FuncInfo> &all) {
-    sigs = &all; called.clear(); icalled.clear(); protos.clear(); lrefs.clear(); uses_ext = false; uses_extm = false; extn_sizes.clear(); data_used.clear();
+    sigs = &all; use_inline = m.geti("inl", 0) != 0; called.clear(); icalled.clear(); protos.clear(); lrefs.clear(); uses_ext = false; uses_extm = false; extn_sizes.clear(); data_used.clear();
     std::set<std::string> defined; for (auto &f : m.at("funcs").a) defined.insert(f.gets("name"));
     std::string funcs_txt; std::vector<std::pair<std::string, std::vector<std::string>>> all_lrefs;
     std::vector<std::string> ftxt; std::vector<std::set<std::string>> fcalls;
@@ -347,6 +353,7 @@ struct CEmitter {
     else if (k == "call") call(st[2].s, st[1], st[2].s, st[3], *sigs);
     else if (k == "icall") call("r_" + st[2].s, st[1], st[2].s, st[3], *sigs);
     else if (k == "ext") { ind(); out += opnd(st[1]) + " = ext(" + opnd(st[2]) + ", " + opnd(st[3]) + ");\n"; }
+    else if (k == "fcmp") { ind(); out += opnd(st[1]) + " = ((void *) " + st[2].s + " == (void *) r_" + st[2].s + ") ? 1 : 0;\n"; }
     else if (k == "extm") { std::string v = opnd(st[2]), mk = "(" + U(st[2]) + " & 4095ULL)"; ind();
       out += opnd(st[1]) + " = extm(" + v + ", (float)" + mk + ", (long double)" + mk + ", (int)" + v + ", (double)" + mk + ", (unsigned char)" + v + ", (long double)" + mk + ", " + v + ", (float)" + mk + ", (short)" + v + ", " + v + ", (unsigned int)" + v + ", " + v + ");\n"; }
     else if (k == "sw" || k == "jt" || k == "lt" || k == "ld") {
@@ -383,7 +390,7 @@ struct CEmitter {
     auto plist = [&](const FuncInfo &fi0, bool names) { FuncInfo fi = fi0; if (fi.ps.empty()) fi.ps = default_ps(fi.na, fi.nd); std::string s; int ai = 0, di = 0, k = 0; for (char c : fi.ps) { if (k++) s += ", "; s += c_ty(c); if (names) s += blk_kind(c) ? S(" s%d", ai++) : int_kind(c) ? S(" a%d", ai++) : S(" d%d", di++); } if (fi.ps.empty()) s += "void"; return s; };
     auto proto = [&](const FuncInfo &fi) { return std::string(c_ty(fi.rt)) + " " + fi.name + "(" + plist(fi, true) + ")"; };
     std::set<std::string> used, ic;
-    for (auto &f : m.at("funcs").a) walk(f.at("body"), [&](const Json &st) { if (st[0].s == "call" || st[0].s == "icall") used.insert(st[2].s); if (st[0].s == "icall") ic.insert(st[2].s); });
+    for (auto &f : m.at("funcs").a) walk(f.at("body"), [&](const Json &st) { if (st[0].s == "call" || st[0].s == "icall" || st[0].s == "fcmp") used.insert(st[2].s); if (st[0].s == "icall" || st[0].s == "fcmp") ic.insert(st[2].s); });
     for (auto &u : used) r += (defined.count(u) ? "" : "extern ") + proto(all.at(u)) + ";\n";
     for (auto &f : m.at("funcs").a) { auto &fi = all.at(f.gets("name")); if (!used.count(fi.name)) r += proto(fi) + ";\n"; }
     for (auto &c : ic) { auto &fi = all.at(c); r += std::string("static ") + c_ty(fi.rt) + " (*r_" + c + ")(" + plist(fi, false) + ") = " + c + ";\n"; }
@@ -452,7 +459,8 @@ struct Model {
         int64_t n = st[2].num(), v = val(st[3], fr); log.push_back({100 + n, v}); uint64_t r = (uint64_t) n;
         for (int64_t i = 1; i <= n; i++) r = r * 31 + (uint64_t) (i <= 3 ? v + i : i * 7);
         setv(st[1], fr, (int64_t) r);
-      } else if (k == "extm") { int64_t v = val(st[2], fr); log.push_back({200, v}); setv(st[1], fr, (int64_t) extm_value(v)); }
+      } else if (k == "fcmp") { setv(st[1], fr, 1); }
+      else if (k == "extm") { int64_t v = val(st[2], fr); log.push_back({200, v}); setv(st[1], fr, (int64_t) extm_value(v)); }
       else if (k == "ext") { int64_t tag = val(st[2], fr), v = val(st[3], fr); log.push_back({tag, v}); int64_t r = ext ? ext(tag, v, *this) : v * 3 + tag; setv(st[1], fr, r); }
       else if (k == "sw") { uint64_t s = (uint64_t) val(st[1], fr); run(st[2][s % st[2].size()], fr); }
       else if (k == "jt" || k == "lt" || k == "ld") { int64_t v = val(st[1], fr); log.push_back({9, v}); uint64_t s = (uint64_t) (ext ? ext(9, v, *this) : v * 3 + 9); size_t ci = s % st[2].size(); log.push_back({(int64_t) (20 + ci), 0}); if (ext) ext((int64_t) (20 + ci), 0, *this); run(st[2][ci], fr); }
@@ -484,7 +492,7 @@ struct Model {
 // ------------------------------------------------------------------------------------------------ generator
 struct GenOpts {
   int nmods = 2, nfuncs = 3, body = 6; bool lref = true, jt = true, icall = true, ext = true, mem = true, loops = true, doubles = true, recursion = true, sw = true;
-  int max_na = 8; int sw_weight = 8; bool blocked = false, wide = false; bool gvar = true, fpbranch = true, ldiff = true, extn = false, typed = false, extm = false, blocks = false;
+  int max_na = 8; int sw_weight = 8; bool blocked = false, wide = false; bool gvar = true, fpbranch = true, ldiff = true, extn = false, typed = false, extm = false, blocks = false, fcmp = false;
 };
 struct Generator {
   Rng &r; GenOpts o; std::vector<FuncInfo> fs; int cur = 0; int depth = 0; bool in_loop = false;
@@ -531,6 +539,7 @@ struct Generator {
       s.push(ic ? "icall" : "call"); s.push(dst()); s.push(fs[j].name); s.push(args_for(j, j <= cur));
     } else if (c < 68 && o.extn) { static const int ns[] = {7, 20, 63, 65, 70}; s.push("extn"); s.push(dst()); s.push(ns[r.below(5)]); s.push(src(false)); }
     else if (c < 70 && o.extm) { s.push("extm"); s.push(dst()); s.push(src(false)); }
+    else if (c < 71 && o.icall && o.fcmp && cur + 1 < (int) fs.size()) { s.push("fcmp"); s.push(dst()); s.push(fs[(size_t) r.range(cur + 1, (int) fs.size() - 1)].name); }
     else if (c < 74 && o.ext) { s.push("ext"); s.push(dst()); s.push((int) r.range(1, 6)); s.push(src()); }
     else if (c < 74 + (unsigned) o.sw_weight && o.sw) {
       depth++; s.push("sw"); s.push(src(false)); Json cs = Json::array(); int n = (int) r.range(2, 4); for (int i = 0; i < n; i++) cs.push(block((int) r.range(1, 2))); s.push(cs); depth--;
@@ -598,7 +607,7 @@ static inline void protect_fuel(Json &prog) {
     for (auto &st : b.a) {
       const std::string k = st[0].s;
       if (k == "op" && st[2].k == Json::Str && st[2].s == "v5") st[2] = Json("v4");
-      else if ((k == "call" || k == "icall" || k == "ext" || k == "extm" || k == "mem") && st[1].k == Json::Str && st[1].s == "v5") st[1] = Json("v4");
+      else if ((k == "call" || k == "icall" || k == "ext" || k == "extm" || k == "fcmp" || k == "mem") && st[1].k == Json::Str && st[1].s == "v5") st[1] = Json("v4");
       for_each_block_mut(st, fix);
     }
   };
